@@ -294,7 +294,9 @@ def one_c09(args):
     sched['reopen'] = 0 if rng.chance(1, 2) else 1
     # every fourth stall / writers run also has one table fsync fail (background error while writers are queued or
     # stalled): every call must still return (with an error), nobody may sleep forever
-    faults = prof in ('stall', 'writers', 'closebg') and idx % 4 == 1
+    faults = prof in ('stall', 'writers', 'closebg', 'manual') and idx % 4 == 1
+    # the thread pool's own check-then-wait window (worker going idle vs. pool shutdown at close): half of the runs widen it
+    if idx % 2 == 0: sched['poolwait'] = rng.choice([300, 2000, 8000])
     if faults:
         sched['failsync'] = rng.range(1, 3); sched['reopen'] = 0
         if prof != 'stall':
